@@ -165,7 +165,7 @@ def table_of_dump(sp, tb):
 
 INST_V = """(* GENERATED: certified instances for C06 — tables dumped from Spec.LALRParsingTable for generated grammars *)
 From Coq Require Import String List Bool Arith NArith.
-From Verif Require Import Cfg.LR Cfg.LRSafe Cfg.Lalr Reg.MaxMunch.
+From Verif Require Import Cfg.LR Cfg.LRSafe Cfg.Lalr Cfg.LRComplete Cfg.LRCanon Cfg.LRExact Reg.MaxMunch.
 Import ListNotations.
 Local Open Scope N_scope.
 Fixpoint nl_eqb (a b : list N) : bool :=
@@ -191,7 +191,8 @@ Fixpoint multiset_eqb (a b : list sig) : bool :=
 Record inst := {
   i_G : grammar; i_T : table; i_eof : N; i_err : N; i_start : N; i_nnt : N;
   i_prec : list (N * list N * list N); i_past : N -> list symbol;
-  i_rejected : bool; i_conflicts : list sig }.
+  i_rejected : bool; i_conflicts : list sig;
+  i_rules : option (list crule) }.       (* the directives read as a classification of parse trees; None: not attempted *)
 (* what is decided per instance:
    - the implementation rejects iff the reference construction leaves an entry unresolved, with the same conflicts;
    - otherwise its table is the reference LALR(1) table entry for entry and passes the safety check *)
@@ -210,10 +211,18 @@ Print M.
 (* instances for which the reference construction leaves a conflict unresolved (the table must be refused) *)
 Definition R := Eval vm_compute in mismatches (fun i => match snd (lalr (i_G i) (i_start i) (i_eof i) (i_nnt i) (i_prec i)) with [] => true | _ => false end) 0 insts.
 Print R.
+(* exactness (Cfg/LRExact.v): the table accepts exactly the token sequences with a canonical parse tree, builds it, and it is unique *)
+Definition exact_ok (i : inst) : bool :=
+  match i_rules i with
+  | None => true
+  | Some r => exact_check (i_G i) (i_T i) (i_eof i) (i_err i) (i_start i) (i_past i) r 60
+  end.
+Definition X := Eval vm_compute in mismatches exact_ok 0 insts.
+Print X.
 """
 
 
-def inst_defs(k, T, prec_rows, rejected, conflicts):
+def inst_defs(k, T, prec_rows, rejected, conflicts, rules=None):
     name = "g%d" % k
     body = L.table_v(T, name, None)
     # strip the header lines of table_v (imports) — keep only definitions
@@ -223,9 +232,80 @@ def inst_defs(k, T, prec_rows, rejected, conflicts):
     prec = "[%s]" % "; ".join("(%d, %s, %s)" % (a, C.coq_nat_list(ts), C.coq_nat_list(ps)) for a, ts, ps in prec_rows)
     sigs = "[%s]" % "; ".join("(%d, %s, %s)" % (a, C.coq_nat_list(r), "true" if sh else "false") for a, r, sh in conflicts)
     rec = ("{| i_G := %s_grammar; i_T := %s_table; i_eof := %s_eof; i_err := %s_err_state; i_start := %s_start; i_nnt := %s_nnt;\n"
-           "   i_prec := %s; i_past := %s_past; i_rejected := %s; i_conflicts := %s |}"
-           % (name, name, name, name, name, name, prec, name, "true" if rejected else "false", sigs))
+           "   i_prec := %s; i_past := %s_past; i_rejected := %s; i_conflicts := %s;\n   i_rules := %s |}"
+           % (name, name, name, name, name, name, prec, name, "true" if rejected else "false", sigs,
+              "None" if rules is None else ("Some (trivial_rules %s_grammar)" % name if rules == "trivial" else
+                                            "Some [%s]" % "; ".join("mkCR %d %s %d" % (p_, C.coq_nat_list(ks), c_) for p_, ks, c_ in rules))))
     return defs, rec
+
+
+def classification_of(T, prec_rows):
+    """The directives read as a classification of parse trees (Cfg/LRComplete.v): 'trivial' without directives; otherwise
+    class = production + 1 for the non-terminals the directives speak about, and a child production q is allowed
+      - as the LAST symbol of p, when q = B b ...: iff shifting b beats reducing p (b earlier than p's handle, or same level and @right);
+      - as the FIRST symbol of p = B a ..., when q ends in a non-terminal: iff reducing q beats shifting a (q's handle earlier, or same level and @left).
+    Only a reading of the directives: the kernel decides whether the table parses exactly these trees; None when too large."""
+    if not prec_rows:
+        return "trivial"
+    def handle(q):
+        for k, x in T.prods[q][1]:
+            if k == "t":
+                return ("t", x)
+        return ("p", q)
+    def level(h):
+        for i, (assoc, ts, ps) in enumerate(prec_rows):
+            if (h[0] == "t" and h[1] in ts) or (h[0] == "p" and h[1] in ps):
+                return (i, assoc)
+        return None
+    def shift_beats_reduce(b, p):          # Shift b against Reduce p
+        lb, lp = level(("t", b)), level(handle(p))
+        if lb is None or lp is None:
+            return None
+        if lb[0] != lp[0]:
+            return lb[0] < lp[0]
+        return {0: False, 1: True}.get(lb[1])
+    by_head = {}
+    for q, (h, b) in enumerate(T.prods):
+        by_head.setdefault(h, []).append(q)
+    forbidden = set()                      # (p, position, q)
+    for p_, (hp, bp) in enumerate(T.prods):
+        if not bp:
+            continue
+        if bp[-1][0] == "n" and len(bp) >= 2:
+            for q in by_head.get(bp[-1][1], []):
+                bq = T.prods[q][1]
+                if len(bq) >= 2 and bq[0][0] == "n" and bq[1][0] == "t":
+                    v = shift_beats_reduce(bq[1][1], p_)
+                    if v is False:
+                        forbidden.add((p_, len(bp) - 1, q))
+        if bp[0][0] == "n" and len(bp) >= 2 and bp[1][0] == "t":
+            for q in by_head.get(bp[0][1], []):
+                bq = T.prods[q][1]
+                if len(bq) >= 2 and bq[-1][0] == "n":
+                    v = shift_beats_reduce(bp[1][1], q)
+                    if v is True:
+                        forbidden.add((p_, 0, q))
+    if not forbidden:
+        return None                        # directives are present but this reading of them forbids nothing: not attempted
+    classified = {T.prods[q][0] for (_, _, q) in forbidden}
+    cls = lambda q: q + 1 if T.prods[q][0] in classified else 0
+    rules = []
+    for p_, (hp, bp) in enumerate(T.prods):
+        choices = []
+        for i, (k, x) in enumerate(bp):
+            if k == "t" or x not in classified:
+                choices.append([0])
+            else:
+                choices.append([q + 1 for q in by_head.get(x, []) if (p_, i, q) not in forbidden])
+        n = 1
+        for c in choices:
+            n *= len(c)
+        if n > 400:
+            return None
+        import itertools
+        for ks in itertools.product(*choices):
+            rules.append((p_, list(ks), cls(p_)))
+    return rules if len(rules) <= 1500 else None
 
 
 def prec_rows_of(sp, T):
@@ -346,7 +426,7 @@ def check(tier):
     rng = C.rng_for(PROP)
     ok, log = C.coq_make(["theories/Props/C06.vo"])
     for t in ["resolve_prefers_earlier_level", "resolve_left_reduces", "resolve_right_shifts", "resolve_none_is_unresolved",
-              "resolve_never_invents", "certified_table_is_sound"]:
+              "resolve_never_invents", "certified_table_is_sound", "certified_table_is_exact", "without_directives_every_tree_is_canonical"]:
         rep.obligation("Props/C06.v: " + t, ok)
     rep.cov["print_assumptions"] = "Closed under the global context x%d" % log.count("Closed under the global context") if ok else "n/a"
 
@@ -388,15 +468,16 @@ def check(tier):
             dist["multiway_unspecified"] += 1
             continue
         dist["rejected" if rejected else "accepted"] += 1
-        insts.append((T, prec_rows_of(sp, T), rejected, conflicts))
+        pr_rows = prec_rows_of(sp, T)
+        insts.append((T, pr_rows, rejected, conflicts, None if rejected else classification_of(T, pr_rows)))
         meta.append((name, text, levels, T, rejected, sp, tb["states"]))
     # instance files
     paths, offs = [], []
     shard = 12
     for o in range(0, len(insts), shard):
         defs, recs = [], []
-        for k, (T, pr, rej, cf) in enumerate(insts[o:o + shard]):
-            d, rcd = inst_defs(k, T, pr, rej, cf)
+        for k, (T, pr, rej, cf, rl) in enumerate(insts[o:o + shard]):
+            d, rcd = inst_defs(k, T, pr, rej, cf, rl)
             defs.append(d)
             recs.append(rcd)
         path = os.path.join(C.GEN, "inst_C06_%d.v" % (o // shard))
@@ -404,7 +485,7 @@ def check(tier):
             f.write(INST_V % ("\n".join(defs), ";\n".join(recs)))
         paths.append(path)
         offs.append(o)
-    bad, cerr, ref_conflict = [], None, set()
+    bad, cerr, ref_conflict, inexact = [], None, set(), []
     for (okc, out), o in zip(C.coqc_many(paths, timeout=600), offs):
         m = C.parse_mismatches(out) if okc else None
         if m is None:
@@ -412,6 +493,7 @@ def check(tier):
             break
         bad.extend(o + x for x in m)
         ref_conflict.update(o + x for x in (C.parse_mismatches(out, "R") or []))
+        inexact.extend(o + x for x in (C.parse_mismatches(out, "X") or []))
     # precedence-dictated parses for the operator family (executed on the dumped table with the driver mirror)
     tree_bad, n_expr = [], 0
     for name, text, levels, T, rejected, _sp, _ns in meta:
@@ -450,6 +532,33 @@ def check(tier):
         unexplained = [i for i in bad if not (reachable_states(meta[i][3]) < lr0_state_count(meta[i][3]) and rep.match_known({"fewer-states-than-lalr"}))]
         rep.obligation("certified instances: %d of %d tables == Coq LALR(1) reference / conflicts, and safe (the rest: known finding D25)"
                        % (len(insts) - len(bad), len(insts)), not unexplained)
+    # exactness certificates (Cfg/LRExact.v), for the tables that are the reference tables
+    if cerr is None:
+        att_triv = [i for i, x in enumerate(insts) if x[4] == "trivial" and i not in bad]
+        att_dir = [i for i, x in enumerate(insts) if isinstance(x[4], list) and i not in bad]
+        fail_triv = [i for i in att_triv if i in inexact]
+        fail_dir = [i for i in att_dir if i in inexact]
+        fail_op = [i for i in fail_dir if meta[i][2] is not None]
+        rep.cov["exactness_certificates"] = {
+            "without_directives": {"attempted": len(att_triv), "certified": len(att_triv) - len(fail_triv)},
+            "with_directives": {"attempted": len(att_dir), "certified": len(att_dir) - len(fail_dir),
+                                "not_attempted": sum(1 for x in insts if x[4] is None and not x[2]),
+                                "uncertified": [meta[i][1] for i in fail_dir[:5]]}}
+        rep.obligation("exactness: %d of %d accepted grammars whose directives forbid nothing: the table accepts EXACTLY the grammar's sentences "
+                       "(any length) and no sentence has two parse trees (exact_check, kernel-evaluated per grammar)"
+                       % (len(att_triv) - len(fail_triv), len(att_triv)), not fail_triv)
+        n_op = sum(1 for i in att_dir if meta[i][2] is not None)
+        rep.obligation("exactness with directives: %d of %d operator grammars: the table accepts exactly the trees the precedence table allows, "
+                       "builds them, and they are unique (other directive grammars: %d of %d certified, the rest only compared with the reference)"
+                       % (n_op - len(fail_op), n_op, len(att_dir) - n_op - (len(fail_dir) - len(fail_op)), len(att_dir) - n_op), not fail_op)
+        for i in (fail_triv + fail_op)[:3]:
+            name, text, levels, T, rejected, sp, nstates = meta[i]
+            diff = language_difference(T, sp)
+            payload = {"grammar": text, "theorem": "exact_check (Cfg/LRExact.v) for this grammar's table",
+                       "note": "the table is the reference LALR(1) table but is not certified to accept exactly the canonical trees"}
+            if diff:
+                payload.update(diff)
+            rep.failure("exactness", {"exactness"}, payload, no_input=(diff is None))
     rep.obligation("precedence-dictated parses on %d expressions" % n_expr, not tree_bad)
     rep.obligation("verdict consistency (error <=> conflicts; no table with an error)", not problems)
     reported = 0
